@@ -17,12 +17,15 @@ def unraw(ident: str) -> str:
 
 def rust_str(s, style=None) -> str:
     """A Rust string literal for the given text (str or bytes that are valid UTF-8).
-    style: None (plain, escapes only where needed) | "uesc" (every character as \\u{..}: a LONG source spelling of a short value) |
+    style: None (plain, escapes only where needed) | "xesc" (ASCII as \\xNN) | "uesc" (every character as \\u{..}: a LONG source spelling of a short value) |
     "raw" (r##".."##: quotes and backslashes unescaped, a source spelling shorter than the escaped one)"""
     if isinstance(s, bytes):
         s = s.decode("utf-8")
     if style == "uesc":
         return '"' + "".join("\\u{%x}" % ord(ch) for ch in s) + '"'
+    if style == "xesc":
+        # every ASCII character as \xNN (braces, spaces and quotes too: `\x7b0\x7d` is the placeholder {0}); the rest verbatim
+        return '"' + "".join(("\\x%02x" % ord(ch)) if ord(ch) < 0x80 else ch for ch in s) + '"'
     if style == "raw" and "\r" not in s:
         n = 1
         while ('"' + "#" * n) in s:
@@ -315,7 +318,7 @@ def render_variant_attrs(v: Variant, indent="    ") -> str:
     gi = list(v.groups or [])
     for kind, payload in runs:
         if kind == "doc":
-            lines.append("%s#[doc = %s]" % (indent, rust_str(payload.s)))
+            lines.append("%s#[doc = %s]" % (indent, rust_str(payload.s, payload.style)))
         elif kind == "raw":
             lines.append("%s#[%s]" % (indent, payload.s))
         else:
